@@ -87,8 +87,12 @@ pub fn check_bounds(plan: &T2Plan, s: &h2::verif::VerifStats, c: &h2::verif::Cod
     // data-frame budget; empty ones by the lifetime cap of 100)
     let target = cfg.conn_target().max(65_535) as usize;
     let budget = cfg.data_frame_budget.unwrap_or(25_600).min(1 << 24);
-    let ev_bound = 4 * s.store_slab + target / 256 + budget / 1 + 100 + 16;
-    viol("recv_buffer_events", s.recv_buffer_slots, ev_bound, format!("4 x records + window/256 + data-frame budget {} + 100 empty + 16", budget));
+    // The data-frame budget charges every buffered DATA frame shorter than 256 bytes with
+    // its shortfall and lets longer ones pay it back, so at any instant
+    //   256 x (non-empty buffered DATA frames) <= budget + buffered payload bytes (+ one frame)
+    let ev_bound = 4 * s.store_slab + (budget.min(1 << 30) + s.recv_buffer_data_bytes) / 256 + 1 + 100 + 16;
+    let _ = target;
+    viol("recv_buffer_events", s.recv_buffer_slots, ev_bound, format!("4 x records + (data-frame budget {} + {} buffered payload bytes) / 256 + 1 + 100 empty + 16", budget, s.recv_buffer_data_bytes));
     viol("recv_buffer_bytes", s.recv_buffer_data_bytes, target + 16_384, "connection window target + one frame".into());
     // frames queued for sending that the local application did not ask for: replies only
     let app_frames = s.streams.iter().map(|x| x.buffered_send_data / 1 + 8).sum::<usize>();
@@ -230,8 +234,10 @@ fn gen_flood(t: &Tape, plan: &mut T2Plan, known: &[u32], next_id: &mut u32) {
             *next_id += 2;
             // the application must not drain it: reader that never releases and a slow accept
             ops.push(PeerOp::Frames(vec![RawFrame::new(HEADERS, F_END_HEADERS, sid, vec![0x83, 0x87, 0x84, 0x01, 0x01, b'a'])]));
+            // padding is not payload: a padded frame is as tiny as its payload
+            let pad = *t.pick(Lane::Peer, &[None, None, Some(255u8), Some(254), Some(1), Some(0)]);
             for _ in 0..n {
-                ops.push(PeerOp::Frames(vec![data(sid, if empty { b"" } else { b"z" }, false, None)]));
+                ops.push(PeerOp::Frames(vec![data(sid, if empty { b"" } else { b"z" }, false, pad)]));
             }
         }
         4 => {
